@@ -391,6 +391,23 @@ def F1_gap(style, lines) -> bool:
     return style == "numpy" and all(not l.strip() for l in lines)
 
 
+NO_FILEPATH_PARENTS = ("module", "module-alias", "function-tuple", "generator", "iterator", "property-tuple")
+
+
+def crash_finding(style, r, parent_kind) -> str | None:
+    """Classify an exception of the implementation against the known crash findings (item-level code the model does not
+    cover). C12-F8: the error path of expressions.safe_get_expression raises BuiltinModuleError when the expression
+    of an annotation cannot be built and the parent's module has no filepath. Input predicate: google/numpy style and a
+    parent that lives in an in-memory module; plus the raising site. Anything else is a new violation."""
+    if r["status"] != "err" or style == "sphinx" or r["error"] != "BuiltinModuleError":
+        return None
+    frames = r.get("frames", [])
+    if parent_kind in NO_FILEPATH_PARENTS and r["where"] == "filepath" \
+            and "safe_get_expression" in frames and "parse_docstring_annotation" in frames:
+        return "C12-F8"
+    return None
+
+
 # ---------------------------------------------------------------- evaluation of a batch of cases
 def evaluate(ctx, cases, stream):
     """cases: list of (style, text, opts, parent_kind)."""
@@ -450,12 +467,14 @@ def evaluate(ctx, cases, stream):
                 if not sections_agree(style, exp, r["canon"]):
                     ctx.tie_failure("correspondence", f"{style}: sections(model) vs Docstring.parse",
                                     {"model": exp, "impl": r["canon"]}, case)
+            elif crash_finding(style, r, pk):
+                ctx.count("correspondence_skipped_known_crash")      # building annotation expressions is outside the model
             elif r["status"] != "ok":
                 ctx.tie_failure("correspondence", f"{style}: model returns sections, implementation {r['status']} {r['error']}",
                                 {"model": mo[2]}, case)
         # direct evaluation of the property on the implementation
         for p in r["problems"]:
-            ctx.property_failure(case, {"problem": p, "lines": [l[:200] for l in lines[:14]]})
+            ctx.property_failure(case, {"problem": p, "lines": [l[:200] for l in lines[:14]]}, finding=crash_finding(style, r, pk))
         if r["status"] == "ok" and r["canon"] is not None and is_plain(style, lines, opts, pk):
             ctx.count("plain_cases")
             want = plain_expectation(style, lines, opts, pk)
@@ -494,9 +513,11 @@ G_HEADERS = ["Args", "Arguments", "Params", "Parameters", "Keyword Args", "Other
 N_HEADERS = ["Deprecated", "Parameters", "Other Parameters", "Returns", "Yields", "Receives", "Raises", "Warns", "Examples", "Attributes",
              "Functions", "Methods", "Classes", "Modules", "Notes", "Warnings", "See Also", "References"]
 G_ITEMS = ["x: desc", "x (int): desc", "y (str, optional): desc", "(int): desc", "int: desc", "name: desc", "no colon here", "f(a, b): desc",
-           "ValueError: when", ": empty name", "np: the alias", "cyc: cyclic", "x: known attribute", "*args: more", "z:", ">>> 1 + 1", "2", "```python", "```", "plain words"]
+           "ValueError: when", ": empty name", "(await x): d", "a (lambda: 0): d", "(x := 1): d", "a (f'{x}'): d", "[x for x in y]: d",
+           "(a if b else c): d", "(int, str): d", "np: the alias", "cyc: cyclic", "x: known attribute", "*args: more", "z:", ">>> 1 + 1", "2", "```python", "```", "plain words"]
 N_ITEMS = ["x : int", "x", "x, y : int, optional", "int", "name : {a, b}, default a", "*args", "ValueError", "f(a)", "1.0", "  leading",
-           ">>> 1 + 1", "2", "```", "a: b", ": int", "?bad", ":", " :", " : ", "np", "cyc : ", "x", "a :", "b :", "c : ", "r : int"]
+           ">>> 1 + 1", "2", "```", "a: b", ": int", "?bad", ":", " :", " : ", "np", "cyc : ", "x", "a :", "b :", "c : ", "r : int",
+           "a : await x", "x := 1", "a : f'{x}'", "b : lambda: 0", "(yield)", "a : [x for x in y]", "a : int, default: 3"]
 S_ITEMS = [":param x: d", ":param int x: d", ":parameter y:", ":type x: int or str", ":arg a: b", ":key k: v", ":var v: d", ":ivar i: d",
            ":cvar c: d", ":vartype v: int", ":raises E: e", ":raise E:", ":except E: e", ":exception E: e", ":returns: r", ":return: r",
            ":rtype: int", ":param x", ":param: d", ":param a b c: d", ":paramx: d", ":x: y", ":raises: e", ":raises A B: e",
@@ -651,6 +672,8 @@ def known_witness(ctx):
         r = run_impl(style, witness_text(w), w.get("options", {}), w.get("parent", "none"))
         if fid == "C12-F1":
             ctx.witness(fid, r["status"] == "ok" and r["canon"] == [])
+        else:
+            ctx.witness(fid, crash_finding(style, r, w.get("parent", "none")) == fid)
 
 
 def corpus_cases():
@@ -676,7 +699,7 @@ def explore(ctx):
     cases = []
     for style in STYLES:
         combos = list(all_opts(style))
-        for _ in range(ctx.budget(24, 200)):
+        for _ in range(ctx.budget(40, 300)):
             text = gen_structured(rng, style) if rng.random() < 0.7 else gen_frags(rng)
             for i, o in enumerate(combos):
                 cases.append((style, text, o, PARENTS[i % len(PARENTS)] if len(combos) > 8 else rng.choice(PARENTS)))
@@ -684,7 +707,7 @@ def explore(ctx):
         evaluate(ctx, b, "all-options")
     # seeded random: structured / fragments, random options and parents, every style on every text
     cases = []
-    for _ in range(ctx.budget(2500, 40000)):
+    for _ in range(ctx.budget(6000, 90000)):
         home = rng.choice(STYLES)
         text = gen_structured(rng, home) if rng.random() < 0.6 else gen_frags(rng)
         for style in STYLES:
@@ -692,7 +715,7 @@ def explore(ctx):
     for b in batches(cases, 6000):
         evaluate(ctx, b, "random")
     cases = []
-    for _ in range(ctx.budget(700, 8000)):
+    for _ in range(ctx.budget(1500, 20000)):
         home = rng.choice(STYLES)
         text = gen_malformed(rng, home)
         for style in STYLES:
@@ -722,6 +745,8 @@ def search(ctx):
             ctx.count("hangs")
         cj = {"style": style, "text": text, "options": opts, "parent": pk}
         for p in r["problems"]:
+            if crash_finding(style, r, pk):
+                continue
             ctx.property_failure(cj, {"problem": p, "lines": [l[:200] for l in r["lines"][:14]]})
             return True
         if r["canon"] is not None and is_plain(style, r["lines"], opts, pk):
